@@ -36,7 +36,8 @@ struct ExpectedSignal {
 };
 
 struct StopExpect {
-  enum Kind { STATUS, TIMEDOUT, EINVAL_, HANG } kind = STATUS;
+  enum Kind { STATUS, TIMEDOUT, EINVAL_, HANG, WAIT_ERROR } kind = STATUS;
+  int error = 0;                    // WAIT_ERROR: the error the failing wait returned
   std::vector<int> statuses;        // acceptable statuses (two at a tie)
   std::vector<ExpectedSignal> signals;
   int64_t end = 0;                  // virtual time at which stop returns (for HANG: when the unbounded wait starts)
@@ -48,7 +49,11 @@ struct StopExpect {
 // `already_reaped`: a status has been returned before (cached).
 // `child_first`: how an exact tie between the child's death and the end of a
 // wait window is resolved (both resolutions are acceptable behaviour).
-inline StopExpect interpret_stop(const StopAction in[3], ChildScript c, int64_t t, int64_t deadline_abs, bool already_reaped, int cached_status, bool child_first = true)
+// `fail_wait` >= 0: the wait of the fail_wait-th executed step fails with
+// `fail_error` (an interrupted poll, say) instead of waiting: the request ends
+// there with that error ("the error of a failed action otherwise") - nothing
+// further is sent.
+inline StopExpect interpret_stop(const StopAction in[3], ChildScript c, int64_t t, int64_t deadline_abs, bool already_reaped, int cached_status, bool child_first = true, int fail_wait = -1, int fail_error = 0)
 {
   StopExpect e;
   if (already_reaped) {
@@ -80,6 +85,7 @@ inline StopExpect interpret_stop(const StopAction in[3], ChildScript c, int64_t 
   int death_status = c.dead ? c.status : c.exit_code;
   int alt_status = -1;  // second acceptable status at an exact tie
   bool term_seen = false;
+  int waits_done = 0;
   bool timed_out = false;
   bool executed_any = false;
   for (int i = 0; i < 3; i++) {
@@ -118,6 +124,13 @@ inline StopExpect interpret_stop(const StopAction in[3], ChildScript c, int64_t 
         death_status = 128 + 9;
       }
       e.trace += "step " + std::to_string(i) + ": SIGKILL at " + std::to_string(t) + "; ";
+    }
+    if (fail_wait >= 0 && waits_done++ == fail_wait) {
+      e.kind = StopExpect::WAIT_ERROR;
+      e.error = fail_error;
+      e.end = t;
+      e.trace += "step " + std::to_string(i) + ": the wait fails with " + std::to_string(fail_error) + " => that error; ";
+      return e;
     }
     // wait up to the action's timeout
     int64_t window;
